@@ -132,8 +132,8 @@ def exec_repro_full(case):
 @st.composite
 def mix_cases(draw):
     d = draw(st.integers(1, 4))
-    return {"d": d, "n": draw(st.integers(4 * d + 4, 150)), "geometry": draw(st.sampled_from(["separated", "overlapping", "nested"])),
-            "logscale": 0.0, "wfam": draw(st.sampled_from(["uniform", "u01", "lognormal"])), "sigma": 1.0,
+    return {"d": d, "n": draw(st.integers(4 * d + 4, 150)), "geometry": draw(st.sampled_from(["separated", "overlapping", "nested", "duplicated", "all-equal"])),
+            "logscale": 0.0, "wfam": draw(st.sampled_from(["uniform", "u01", "lognormal", "halfzero", "one-point"])), "sigma": 1.0,
             "seed": draw(st.integers(0, 2**31 - 1)), "op": draw(st.sampled_from(["gmm.fit", "hgm.fit", "hgm.fit+predict"])),
             "K": draw(st.integers(1, 3)), "rs": draw(st.one_of(st.none(), st.integers(0, 10**6), st.just(42))),
             "a": draw(st.integers(0, 2**31 - 1)), "b": draw(st.integers(0, 2**31 - 1))}
